@@ -18,14 +18,16 @@ pub fn prop() -> Prop {
   Prop {
     id: "C14",
     rule: "case = (conversion in to_future / collect().to_future / to_stream / complete_status (flags + the future wait_for_end blocks on); source = hot Subject or SubjectThreads; history of <= 8 steps: next(numbered item), complete, error, poll the future / stream once with a wake-counting waker; polls happen before, between and after the source events). \
-           Oracle: to_future resolves to Ok(Ok(v)) for exactly one item then complete, Err(Empty) for none, Err(MultipleValues) for several, Ok(Err(e)) for an error (after earlier items: the error or MultipleValues); collect().to_future resolves to all items; to_stream yields every item and then the error in order and then None; the status flags are all false before the terminal and exactly one of completed / error_occur afterwards. Readiness: a poll made after the source terminated returns Ready (the stream: Ready for every queued element and then Ready(None)), never Pending; a poll made before returns Pending and never an invented value; if a poll returned Pending, the waker it registered has been woken by the time the source has terminated. Non-trivial: a poll happened before the terminal, or the terminal is an error. Distinct by hash(case).",
+           Oracle: to_future resolves to Ok(Ok(v)) for exactly one item then complete, Err(Empty) for none, Err(MultipleValues) for several, Ok(Err(e)) for an error (after earlier items: the error or MultipleValues); collect().to_future resolves to all items; to_stream yields every item and then the error in order and then None; the status flags are all false before the terminal and exactly one of completed / error_occur afterwards. Readiness: a poll made after the source terminated returns Ready (the stream: Ready for every queued element and then Ready(None)), never Pending; a poll made before returns Pending and never an invented value; if a poll returned Pending, the waker it registered has been woken by the time the source has terminated. Non-trivial: a poll happened before the terminal, or the terminal is an error. Distinct by hash(case). \
+           Part `threads` (engine T): a producer thread sends 0..2 items and then complete or error into SubjectThreads -> complete_status; a waiter thread blocks on the future that wait_for_end blocks on, through the harness block_on (parking is a controller state); schedule = <= 3 preemptions over the lock-acquisition yield points plus the hooked point between the status check and the waker registration; every schedule with <= 2 preemptions is enumerated per script. Oracle: both threads finish (a waiter parked for ever after the producer has finished is a lost wake-up verdict) and the waiter returns only after the terminal.",
     assumptions: &[
       "dropping the future/stream while the source is still emitting is not generated",
-      "the producer/waiter thread interleaving (lost wake-up window) is the engine-T part's job",
+      "threads part: sequentially consistent interleavings at the hooked yield points only",
     ],
     parts: vec![
       Part { name: "histories", run: run_random, tape_len: 32, quick_cases: 800_000, thorough_cases: 16_000_000, exhaustive_depth: None, exhaustive_budget: 0, exh_quick: false },
       Part { name: "short", run: run_short, tape_len: 16, quick_cases: 0, thorough_cases: 0, exhaustive_depth: Some(10), exhaustive_budget: 10_000_000, exh_quick: true },
+      Part { name: "threads", run: run_threads, tape_len: 24, quick_cases: 6_000, thorough_cases: 400_000, exhaustive_depth: None, exhaustive_budget: 0, exh_quick: false },
     ],
   }
 }
@@ -357,4 +359,121 @@ fn run_short(c: &mut dyn Choices, ctx: &Ctx) -> Outcome {
   let n = c.pick(7);
   let ops = (0..n).map(|_| c.one_of(&[Op::Next, Op::Complete, Op::Error, Op::Poll]).clone()).collect();
   finish(conv, false, ops, ctx)
+}
+
+
+// ------------------------------------------------------------ engine T part
+
+#[derive(Clone, Debug, Hash)]
+struct WCase {
+  items: usize,
+  error: bool,
+  preemptions: Vec<(u64, usize)>,
+}
+
+fn exec_wait(case: &WCase) -> (crate::engine_t::RunStats, bool) {
+  use std::sync::atomic::AtomicBool;
+  crate::vtime::reset(crate::vtime::Mode::Fifo);
+  let subject = SubjectThreads::<i64, u8>::default();
+  let (o, st) = subject.clone().complete_status();
+  let _sub = o.actual_subscribe(Sink);
+  let returned_early = Arc::new(AtomicBool::new(false));
+  let producer: Box<dyn FnOnce() + Send> = {
+    let mut s = subject.clone();
+    let (items, error) = (case.items, case.error);
+    Box::new(move || {
+      for i in 0..items {
+        s.next(i as i64);
+      }
+      if error {
+        s.error(9)
+      } else {
+        s.complete()
+      }
+    })
+  };
+  let waiter: Box<dyn FnOnce() + Send> = {
+    let st = st.clone();
+    let early = returned_early.clone();
+    Box::new(move || {
+      let _ = crate::engine_t::block_on(CompleteStatus::verif_wait_future(st.clone()));
+      if !st.is_closed() {
+        early.store(true, Ordering::SeqCst);
+      }
+    })
+  };
+  // thread 0 = waiter (starts first, so that it can be preempted inside its first poll), thread 1 = producer
+  let stats = crate::engine_t::run_threads(vec![waiter, producer], case.preemptions.clone(), 2_000);
+  (stats, returned_early.load(Ordering::SeqCst))
+}
+
+fn judge_wait(case: &WCase) -> (Verdict, crate::engine_t::RunStats) {
+  use crate::engine_t::Verdict as TV;
+  let (stats, early) = exec_wait(case);
+  let v = match &stats.verdict {
+    TV::LostWakeup(m) => Verdict::Violation { sig: "threads:lost-wakeup:wait_for_end".into(), detail: format!("the producer finished (terminal delivered) but the waiter is parked for ever: {m}") },
+    TV::Deadlock(m) => Verdict::Violation { sig: "threads:deadlock:wait_for_end".into(), detail: m.clone() },
+    TV::Panic(m) => Verdict::Violation { sig: "threads:panic:wait_for_end".into(), detail: m.clone() },
+    TV::StepLimit => Verdict::Violation { sig: "threads:livelock:wait_for_end".into(), detail: "step limit".into() },
+    TV::Completed => {
+      if early {
+        Verdict::Violation { sig: "threads:returned-early:wait_for_end".into(), detail: "the wait future resolved although the status was not closed".into() }
+      } else {
+        Verdict::Ok
+      }
+    }
+  };
+  (v, stats)
+}
+
+fn run_threads(c: &mut dyn Choices, ctx: &Ctx) -> Outcome {
+  let items = c.pick(3);
+  let error = c.flag();
+  let exhaustive = c.pick(4) == 0;
+  let mut labels = vec!["part:threads"];
+  let mut nt = false;
+  let mut worst: Option<(Verdict, WCase)> = None;
+  if exhaustive {
+    labels.push("exhaustive-2");
+    let base = WCase { items, error, preemptions: vec![] };
+    let (_, s0) = judge_wait(&base);
+    let total = s0.yields.min(30);
+    'outer: for s1 in 1..=total {
+      for t1 in 0..2 {
+        for s2 in s1..=total {
+          for t2 in 0..2 {
+            let pre = if s2 == s1 { vec![(s1, t1)] } else { vec![(s1, t1), (s2, t2)] };
+            let case = WCase { items, error, preemptions: pre };
+            let (v, st) = judge_wait(&case);
+            nt |= st.preemptions_taken > 0;
+            if let Verdict::Violation { .. } = v {
+              worst = Some((v, case));
+              break 'outer;
+            }
+            if s2 == s1 {
+              break;
+            }
+          }
+        }
+      }
+    }
+  } else {
+    let k = c.pick(4);
+    let mut pre: Vec<(u64, usize)> = (0..k).map(|_| (1 + c.pick(25) as u64, c.pick(2))).collect();
+    pre.sort();
+    pre.dedup_by_key(|p| p.0);
+    let case = WCase { items, error, preemptions: pre };
+    let (v, st) = judge_wait(&case);
+    nt = st.preemptions_taken > 0;
+    if let Verdict::Violation { .. } = v {
+      worst = Some((v, case));
+    } else if ctx.want_desc {
+      worst = Some((Verdict::Ok, case));
+    }
+  }
+  let (verdict, desc) = match worst {
+    Some((v, case)) => (v, Some(json!({"producer": format!("{} item(s) then {}", case.items, if case.error {"error"} else {"complete"}), "waiter": "block_on(wait future)", "preemptions(step->thread; 0=waiter,1=producer)": case.preemptions}))),
+    None => (Verdict::Ok, None),
+  };
+  Outcome { verdict, nontrivial: nt, hash: hash_of(&(items, error, exhaustive, c.record().to_vec())), labels, notes: vec![], desc }
 }
